@@ -247,7 +247,7 @@ def handle : P String := do
     pure (pBool (equalsAbs env.ppqn { ignoreCh := ic, ignoreTs := its, ignoreKs := iks, ignoreVel := iv } a b))
   | "cutoff" => do let m ← pint; let r ← pint; pure (pMsgs (cutoff m r (← msgs)))
   | "merge" => do let a ← msgs; let others ← many msgs; pure (pMsgs (mergeAbs a others))
-  | "quantise" => do let steps ← ints; pure (pExcept pMsgs (quantise steps (← msgs)))
+  | "quantise" => do let steps ← ints; pure (pExcept pMsgs (quantiseS steps (← msgs)))
   | "qnl" => do
     let values ← ints; let std ← pint; let dne ← pbool
     pure (pExcept pMsgs (quantiseNoteLengths values std dne (← msgs)))
